@@ -194,6 +194,13 @@ def run(ctx):
     for ch, ml in ((5, ctx.pick(700, 4000)), (8, ctx.pick(600, 3000))):
         pcfg = fw.write_cfg(ctx.path("MC_ParseDcAlg_%d.cfg" % ch), invariants=["TableOK", "DcOK"], constants={"Chunk": ch, "MaxLen": ml})
         ctx.mc("mc-parsedc-%d" % ch, "C07", "ParseDcAlg.tla", pcfg, workers=2)
+    # to_chunks / from_chunks at word level: which words each chunk is copied from, masks, shifts, buffer sizes
+    ccfg = fw.write_cfg(ctx.path("MC_ChunksAlg.cfg"), invariants=["ChunksOK"],
+                        constants={"W": 3, "MaxWords": ctx.pick(4, 5), "MaxChunkBits": ctx.pick(13, 16)})
+    ctx.mc("mc-chunks", "C07", "ChunksAlg.tla", ccfg, workers=4)
+    acfg = fw.write_cfg(ctx.path("MC_ChunksAlg_arb.cfg"), spec="ArbSpec", invariants=["ArbOK"],
+                        constants={"W": 3, "MaxWords": 2, "MaxChunkBits": ctx.pick(8, 14)})
+    ctx.mc("mc-chunks-arb", "C07", "ChunksAlg.tla", acfg, workers=4)
     # spec -> impl: the partition enumerated by TLC
     radices = ctx.pick([2, 3, 7, 8, 10, 16, 29, 36], list(range(2, 37)))
     ctx.scope.update({"radices": radices, "thorough": not ctx.quick, "exact_digit_limit": 2000,
